@@ -71,6 +71,10 @@ def _mentions_S(t):
 
 
 def check(ctx):
+    # readers between warm starts keep nothing on the selector that a later warm start would leave stale
+    for _pkg in ("feature", "sample"):
+        for _c in ("FPS", "PCovFPS"):
+            protocols.reader_state_obligations(ctx, "R-STATE", f"{_pkg}.{_c}", ctx.P.cls(f"skmatter.{_pkg}_selection.{_c}"))
     P = ctx.P
     N = ctx.normalizer()
     from .C07 import cadence
